@@ -253,6 +253,9 @@ func (f *SecretFactory) New(b []byte) (securememory.Secret, error) {
 	if err := f.memcall().Protect(secret.bytes, memcall.NoAccess()); err != nil {
 		// Shouldn't happen, but free up the resources if it does. We intentionally
 		// ignore the errors from the cleanup and return the reason why we got here.
+		// The pages already hold the secret: wipe them before they are unlocked and released.
+		core.Wipe(secret.bytes)
+
 		if err2 := memcall.Clean(f.memcall(), secret.bytes); err2 != nil {
 			err = errors.Wrap(err, err2.Error())
 		}
@@ -283,6 +286,9 @@ func (f *SecretFactory) createRandom(size int, readFunc func(b []byte) (n int, e
 	if _, err := readFunc(s.bytes); err != nil {
 		// Shouldn't happen, but free up the resources if it does. We intentionally
 		// ignore the errors from the cleanup and return the reason why we got here.
+		// A partial read may have left key material behind: wipe before releasing.
+		core.Wipe(s.bytes)
+
 		if err2 := memcall.Clean(f.memcall(), s.bytes); err2 != nil {
 			err = errors.Wrap(err, err2.Error())
 		}
@@ -294,6 +300,9 @@ func (f *SecretFactory) createRandom(size int, readFunc func(b []byte) (n int, e
 	if err := f.memcall().Protect(s.bytes, memcall.NoAccess()); err != nil {
 		// Shouldn't happen, but free up the resources if it does. We intentionally
 		// ignore the errors from the cleanup and return the reason why we got here.
+		// The pages already hold the secret: wipe them before they are unlocked and released.
+		core.Wipe(s.bytes)
+
 		if err2 := f.memcall().Unlock(s.bytes); err2 != nil {
 			err = errors.Wrap(err, err2.Error())
 		}
